@@ -2,6 +2,7 @@
 //! `mon <cNN> --seed S --shard I --cases N [--thorough] [--out FILE] [--replay FILE] [--key value ...]`
 
 mod bddmon;
+mod cli;
 mod common;
 mod hist;
 mod meta;
@@ -106,6 +107,8 @@ fn run(cfg: &Cfg, rep: &mut Report) {
         #[cfg(feature = "frontend")]
         "c19" => stream::c19(cfg, rep),
         "c20" => small::c20(cfg, rep),
+        "c15" => cli::c15(cfg, rep),
+        "c14cli" => cli::c14cli(cfg, rep),
         "probe" => probe::probe(cfg, rep),
         other => {
             eprintln!("unknown property {}", other);
